@@ -1215,6 +1215,55 @@ def _fixture(chk):
     chk.instance("K3", "fixture: %d positive/negative examples classified as expected" % n, nontrivial=False)
 
 
+def check_cache_and_lazy(repo, chk):
+    """seed-driven clauses: (M1) a cache hit returns the cached object itself; (M2) LazyCall.as_dataset records
+    the requested batch size before any return"""
+    import ast
+
+    from ..model import norm_text, walk_local
+    from ..mustpass import must_pass
+
+    chk.rule("M1", "cached-data read back is the identity: `data = self.cached_data.get(idx, None); if data is not None: return data` - the cache holds fully processed samples, nothing is re-applied on a hit")
+    chk.rule("M2", "LazyCall.as_dataset stores the requested batch size on every path before returning (iteration reads self.batch_size)")
+    n = 0
+    m = repo.mod("tf_pwa/config_loader/data.py")
+    for f in m.funcs.values():
+        hits = [x for x in walk_local(f.node) if isinstance(x, ast.Assign) and isinstance(x.value, ast.Call) and norm_text(x.value.func) == "self.cached_data.get" and isinstance(x.targets[0], ast.Name)]
+        for a in hits:
+            var = a.targets[0].id
+            for st in walk_local(f.node):
+                if isinstance(st, ast.If) and norm_text(st.test) == "%s is not None" % var:
+                    rets = [r for r in st.body if isinstance(r, ast.Return)]
+                    for r in rets:
+                        n += 1
+                        ok = isinstance(r.value, ast.Name) and r.value.id == var
+                        chk.instance("M1", "%s: cache hit returns `%s`: %s" % (f.key, norm_text(r.value), ok))
+                        if not ok:
+                            chk.violation("M1", f.key, "cache-hit", "on a cache hit the function returns `%s` instead of the cached object `%s`: processing that was applied before the sample was cached is applied a second time" % (norm_text(r.value), var), file=m.rel, line=r.lineno)
+    if n < 2:
+        raise AnalysisError("fewer than 2 cached_data read-back sites found in config_loader/data.py")
+    # the cache is written from the same accessor that reads it (save after processing)
+    fn = repo.fn("tf_pwa/data.py::LazyCall.as_dataset")
+    if "batch" not in fn.all_param_names():
+        raise AnalysisError("LazyCall.as_dataset lost its batch parameter")
+
+    def is_event(node, sc):
+        return isinstance(sc, ast.Assign) and norm_text(sc.targets[0]) == "self.batch_size" and norm_text(sc.value) == "batch"
+
+    def is_sink(node, sc):
+        return isinstance(sc, ast.Return)
+
+    cfg, n_sinks, bad = must_pass(fn.node, is_event, is_sink)
+    chk.instance("M2", "LazyCall.as_dataset: %d return sites, all after `self.batch_size = batch`: %s" % (n_sinks, not bad))
+    for node, path in bad[:1]:
+        chk.violation("M2", fn.key, "batch-size-stale", "a return at line %s is reachable without storing the requested batch size: a later iteration uses the batch size of a previous request; path %s" % (node.lineno, " -> ".join(path[-6:])), file="tf_pwa/data.py", line=node.lineno, path=path)
+    it = repo.fn("tf_pwa/data.py::LazyCall.__iter__")
+    reads = any(isinstance(x, ast.Attribute) and x.attr == "batch_size" for x in ast.walk(it.node))
+    chk.instance("M2", "LazyCall.__iter__ reads self.batch_size: %s" % reads)
+    if not reads:
+        chk.info("LazyCall.__iter__ no longer reads self.batch_size; rule M2 may be obsolete")
+
+
 def run(repo, chk, tier):
     chk.rule("K1", "each structural recursion dispatches on exactly its confirmed container kinds (frozen table)")
     chk.rule("K2", "partner functions handle the same kinds; flatten/nest agree on leaf kinds and dict order")
@@ -1232,5 +1281,6 @@ def run(repo, chk, tier):
     _fixture(chk)
     check_recursions(repo, chk)
     check_layout(repo, chk)
+    check_cache_and_lazy(repo, chk)
     chk.info("not decided (value level): batch arithmetic of _data_split (range(0, n, b), min), np.save/np.load/np.savez fidelity (save_data/load_data), "
              "LazyCall evaluation order, root_io")
